@@ -40,6 +40,7 @@ def run(ctx: Ctx):
     n += rc.run_format(ctx, rt, "C07", "excel", None)
     n += rc.run_format(ctx, rt, "C07", "aif", None)
     rc.r_branch_canon(ctx, rt, "C07")
+    rc.r_model_state(ctx, rt, "C07")
     r_refuse(ctx, rt)
     # AIF rounds with the same constant
     import ast
